@@ -262,20 +262,33 @@ func c16Structure(c *Ctx) {
 				}
 			}
 		}
+		// the other way of writing the result: dst = append(dst, hi, lo) once per serial byte, starting from an empty
+		// buffer that the 3-byte arm extends by the padding
+		var app *mhAppend
+		if len(loopWrites) == 0 {
+			if app = modhexAppendForm(w, mh); app != nil {
+				okHi, okLo, serial = app.okHi, app.okLo, app.serial
+			}
+		}
 		c.Check(okHi && okLo, "R4.modhex", "ModHex|each byte becomes high nibble then low nibble", w.FnPos(mh), "dst[i] = alphabet[(b>>4)&0xf]; dst[i+1] = alphabet[b&0xf]", "the two characters of a byte are not its high and low nibble in that order")
-		if idxPhi == nil || serial == nil {
+		if (idxPhi == nil && app == nil) || serial == nil {
 			c.Und("R4.modhex", "ModHex|write index and serial", w.FnPos(mh), "the loop writing the result was not recognised")
 		} else {
 			// step 2
 			step := false
 			var start ssa.Value
-			for _, e := range idxPhi.Edges {
-				if b, ok := e.(*ssa.BinOp); ok && b.Op == token.ADD && b.X == ssa.Value(idxPhi) {
-					if k, ok := intConst(b.Y); ok && k == 2 {
-						step = true
+			if app != nil {
+				step, start = true, app.start // two characters appended per iteration, by construction
+				c.Check(app.returned, "R4.modhex", "ModHex|the appended buffer is the result", w.FnPos(mh), "return string(dst)", "the buffer the characters are appended to is not what ModHex returns")
+			} else {
+				for _, e := range idxPhi.Edges {
+					if b, ok := e.(*ssa.BinOp); ok && b.Op == token.ADD && b.X == ssa.Value(idxPhi) {
+						if k, ok := intConst(b.Y); ok && k == 2 {
+							step = true
+						}
+					} else {
+						start = e
 					}
-				} else {
-					start = e
 				}
 			}
 			c.Check(step, "R4.modhex", "ModHex|index advances by two per byte", w.FnPos(mh), "dstidx += 2", "the write index does not advance by two per serial byte")
@@ -285,6 +298,14 @@ func c16Structure(c *Ctx) {
 			if sp, ok := start.(*ssa.Phi); ok {
 				for i, e := range sp.Edges {
 					off := lin(w, e, func(ssa.Value) string { return "" })
+					if app != nil {
+						k, ok := app.padOf(e)
+						if !ok {
+							okArms = false
+							continue
+						}
+						off = linForm{c: k, terms: map[string]int64{}}
+					}
 					if len(off.terms) != 0 {
 						okArms = false
 						continue
@@ -336,6 +357,9 @@ func c16Structure(c *Ctx) {
 						}
 					}
 				}
+			}
+			if app != nil {
+				nPad = app.nPad
 			}
 			c.Check(nPad == 2, "R4.modhex", "ModHex|old serials padded with two zero digits", w.FnPos(mh), "dst[0], dst[1] = alphabet[0]", "the 3-byte form is not padded with two ModHex zero digits")
 			// serial = ext.Value[2:] of the matching extension; absent -> error; other lengths -> error
